@@ -575,6 +575,13 @@ def run(chk):
     check_bulk(chk, it, tabs, configs)
     # memory.init reads d<k>: in the blob modes that pointer must address segment k inside the concatenated blob
     c06.check_data_modes(chk, tus, 'R05.4')
+    # R05.5: "-1 when the declared maximum would be exceeded" needs the declared maximum: the memory-section reader records the limits
+    # of the binary exactly - no maximum, a maximum above, equal to and (for an empty memory) of zero pages (grammar rule shared with C08)
+    from . import c08
+    rtu = astdb.dump_ast(astdb.src('w2c2/reader.c'))
+    chk.unit(rtu)
+    c08.check_section_grammar(chk, rtu, rule='R05.5', only=('wasmReadMemorySection', 'wasmReadMemorySection#2'))
+    chk.floor('R05.5', 6)
     chk.floor('R05.1', 23 + 5)
     chk.floor('R05.2', 23 * 6)
     chk.floor('R05.3', 8)
